@@ -9,8 +9,9 @@
    3. matchChild/doMatch/node_run started in a quiet state whose matchPath encodes pi either
       complete with evalp, or suspend leaving a matchPath that encodes a path pi' with the SAME
       evalp (node_ok, by structural induction on the tree): resuming from breadcrumbs equals
-      continuing the interrupted recursion;
-   4. the same for the root Acl::Tree, which also yields lastMatch_ (tree_ok_run);
+      continuing the interrupted recursion; SD: a leaf object shared by several places of the
+      tree must have no lookups left (its value is then unaffected by evaluating it);
+   4. the same for the root Acl::Tree, which also yields lastMatch_ (matchAndFinish_fresh, matchAndFinish_resume);
    5. nonBlockingCheck/resumeNonBlockingCheck preserve "suspended with the same first match" and
       the number of outstanding lookups decreases (nb_loop_ok, fuel induction); fastCheck never suspends. *)
 Require Import SquidV.Bytes SquidV.AcltreeModel.
